@@ -184,6 +184,16 @@ impl World {
         let reqs = s.verif_publish_request_ids();
         out.push(reqs.len() as i128);
         for r in reqs { out.push(r as i128); }
+        // how many of the pending notifications of each subscription carry data
+        let ids = s.verif_subscription_ids();
+        out.push(ids.len() as i128);
+        for id in ids {
+            let sub = s.verif_subscription_mut(id).unwrap();
+            let n = sub.verif_notifications().iter().filter(|m| {
+                m.notification_data.is_some() && m.notifications(&DecodingOptions::default()).is_some()
+            }).count();
+            out.push(n as i128);
+        }
     }
 
     /// one operation; appends marker 7, status, optional republished message, responses, snapshot
@@ -297,6 +307,21 @@ impl World {
         self.responses(out);
         self.snapshot(out);
     }
+}
+
+impl World {
+    /// for simulation-guided generators: run one operation, return false on panic
+    pub fn apply(&mut self, opix: usize, o: &Op) -> bool {
+        let mut part = Vec::new();
+        guarded(|| self.step(opix, o, &mut part)).is_ok()
+    }
+    pub fn retained(&self) -> Vec<(i64, i64)> {
+        self.session.read().verif_retransmission_keys().into_iter().map(|k| (k.0 as i64, k.1 as i64)).collect()
+    }
+    pub fn live_subs(&self) -> Vec<i64> {
+        self.session.read().verif_subscription_ids().into_iter().map(|k| k as i64).collect()
+    }
+    pub fn queued_requests(&self) -> usize { self.session.read().verif_publish_request_ids().len() }
 }
 
 /// Runs the whole case; a panic in the real code ends the output with the marker -2.
